@@ -28,6 +28,16 @@ func caseBattle(t *testing.T, tp *simrt.Tape, c *Ctx) (res Result) {
 		ws = append(ws, genWarrior(tp, M, int(min(M, 6))))
 		offs = append(offs, uint64(tp.Draw("bat.off", int(M))))
 	}
+	spawnOrder := make([]int, nw)
+	for i := range spawnOrder {
+		spawnOrder[i] = i
+	}
+	if tp.Draw("bat.spawnorder", 3) == 0 {
+		for i := nw - 1; i > 0; i-- {
+			j := tp.Draw("bat.spawnorder.j", i+1)
+			spawnOrder[i], spawnOrder[j] = spawnOrder[j], spawnOrder[i]
+		}
+	}
 	sched := tp.Draw("bat.schedule", 4)
 	run := func(kind int, twin bool) (*histState, []bool) {
 		h := newHist(&res, tp, cfg, c.Prop)
@@ -50,7 +60,8 @@ func caseBattle(t *testing.T, tp *simrt.Tape, c *Ctx) (res Result) {
 			h.model.AddWarrior(ws[i])
 			h.log("AddWarrior(%s)", warStr(ws[i]))
 		}
-		for i := range ws {
+		// spawning need not follow loading order; execution order must
+		for _, i := range spawnOrder {
 			h.opSpawn(i, offs[i])
 			if h.dead {
 				return h, nil
@@ -146,7 +157,7 @@ func caseBattle(t *testing.T, tp *simrt.Tape, c *Ctx) (res Result) {
 		if tp.Draw("bat.rematch", 3) == 0 {
 			s1, _ := takeSnap(h1.box)
 			h1.opReset()
-			for i := range ws {
+			for _, i := range spawnOrder { // same places, same order
 				if h1.dead {
 					break
 				}
